@@ -64,7 +64,8 @@ impl Cube {
     /// Obtain the minterm for a value of the variables
     pub fn minterm(num_vars: usize, mask: usize) -> Cube {
         let m = mask as u32;
-        let tot = (1 << num_vars) - 1;
+        // Computed on 64 bits, as all 32 variables may be used
+        let tot = ((1u64 << num_vars) - 1) as u32;
         Cube {
             pos: m & tot,
             neg: !m & tot,
